@@ -19,6 +19,8 @@ func init() {
 			"Not decided: completeness/order of what gocbcore and the server deliver; behaviour across vBuckets at run time.",
 		Assumptions: []string{"gocbcore calls the handlers of one vBucket's stream sequentially in server order", "reflect-based IsMetadata is decided in C14"},
 		Rules: []RuleDef{
+			{ID: "C03.R24", Text: "the filters an event is judged by are the configured ones: outside package config the configuration is only read — not through a pointer it holds (skipUntil) nor into an element of one of its slices either (same rule as C17.R6)", Run: configImmutable},
+			{ID: "C03.R25", Text: "the key and value the consumer receives are the server's bytes: the library writes into no byte slice it did not make itself — no element store, no append onto a re-slice, no copy into a []byte that came out of an event, out of reflect.Value.Bytes, or in as a parameter from a caller that got it there", Run: eventBytesUntouched},
 			{ID: "C03.R23", Text: "after a rollback only events at or below the position reached are filtered: a replayed snapshot announcement is installed whenever the gate passes, under no other condition, and an event outside the announced snapshot stops the client instead of being dropped (same rules as C06.R7 and C06.R2)", Run: func(c *Ctx, id string) { markerInstall(c, id); c06r2(c, id) }},
 			{ID: "C03.R22", Text: "a re-opened stream continues where delivery stands, so nothing is delivered twice: openStream reads offsets[vbID] when it is called, every attempt anew — no request remembered from Open (same rule as C12.R3)", Run: c12r3},
 			{ID: "C03.R1", Text: "document handler → deliver → listener → forwarder → ConsumeEvent is a chain of plain synchronous calls (no go/defer hop, no channel, select, timer)", Run: c03r1},
